@@ -159,7 +159,7 @@ pub fn run(args: &Args, rec: &mut Recorder) {
     let mut srng = Rng::derive(&[args.seed, 0xC03, args.shard]);
     let seeds = Seeds::build(&g, &mut srng, if args.thorough { 40 } else { 12 });
     let n_probes = (DEPTHS.len() * 5) as u64;
-    let n_random: u64 = if args.thorough { 3_000_000 } else { 60_000 };
+    let n_random: u64 = if args.thorough { 10_000_000 } else { 300_000 };
     let total = n_probes + n_random;
     run_cases(args, rec, total, crate::util::reset_budget, |rng, case, rec| {
         if case < n_probes {
